@@ -7,6 +7,7 @@ import (
 	_ "verif/h/c07"
 	_ "verif/h/c18"
 	_ "verif/h/c20"
+	_ "verif/h/cli"
 	_ "verif/h/life"
 	_ "verif/h/order"
 	_ "verif/h/pubsub"
